@@ -3,8 +3,9 @@
   (`Unambiguous`), which values such a list can carry through its reader (`expressible`), and what
   the round trip must return (`truncate_to_precision`: the value cut to the precision the format
   prints).  Nothing here looks at the parser's or the formatter's branch structure; the only model
-  functions used are field accessors of the value types (C01/C07) and `Zoned.from_local_datetime`
-  (C04) to put a truncated local reading back at an offset.
+  functions used are field accessors of the value types (C01/C07), `Zoned.from_local_datetime`
+  (C04) to put a truncated local reading back at an offset and `Zoned.naive_local` (C04) to ask whether
+  the wall clock of an instant at an offset exists.
 
   Outside the family by definition (`invertible = false`): the print-only items `%::z`, `%:::z`, `%Z`,
   the read-only item `%#z`, `%+`/RFC 2822 (properties C10/C11 own them) and `Item::Error`.
@@ -79,6 +80,10 @@ def invertible : Item → Bool
   | .fixed _ => true
   | .error => false
 
+/-- the items carry the instant only as a timestamp: `%s`, optionally next to an offset item, and
+no date, time or fraction field (`%s`, `%s %z`, `%s%:z`, `%z %s`, with literals and white space) -/
+def stampOnly (c : Carries) : Bool := c == { timestamp := true, offset := c.offset }
+
 /-- a year group (full year, century, two-digit year) from which the reader gets a year -/
 def yearGroup (y _q r : Bool) : Bool := y || r
 /-- a full date in calendar, ordinal, Sunday-week, Monday-week or ISO-week form -/
@@ -141,21 +146,56 @@ def yearTouchesDigits (n : Numeric) : List Item → Bool
      | .numeric m _ => decide (m = n) && !stopsNumber b
      | _ => false) || yearTouchesDigits n (b :: rest)
 
+/-! ### what a target type can print -/
+
+/-- what an item needs from the value it is printed for: (a date, a time of day, an offset) -/
+def itemNeeds : Item → Bool × Bool × Bool
+  | .literal _ | .space _ => (false, false, false)
+  | .numeric .hour _ | .numeric .hour12 _ | .numeric .minute _ | .numeric .second _
+  | .numeric .nanosecond _ => (false, true, false)
+  | .numeric .timestamp _ => (true, true, false)
+  | .numeric _ _ => (true, false, false)
+  | .fixed .shortMonthName | .fixed .longMonthName | .fixed .shortWeekdayName
+  | .fixed .longWeekdayName => (true, false, false)
+  | .fixed .lowerAmPm | .fixed .upperAmPm | .fixed .nanosecond | .fixed .nanosecond3 | .fixed .nanosecond6
+  | .fixed .nanosecond9 | .fixed .nanosecond3NoDot | .fixed .nanosecond6NoDot
+  | .fixed .nanosecond9NoDot => (false, true, false)
+  | .fixed .rfc2822 | .fixed .rfc3339 => (true, true, true)
+  | .fixed _ => (false, false, true)
+  | .error => (true, true, true)
+
+/-- what a value of the target type shows: `NaiveDate` a date, `NaiveTime` a time, `NaiveDateTime` both,
+`DateTime` both and an offset -/
+def targetShows : Target → Bool × Bool × Bool
+  | .date => (true, false, false)
+  | .time => (false, true, false)
+  | .naive => (true, true, false)
+  | .zoned => (true, true, true)
+
+/-- the target type has everything the item needs (otherwise `format` fails with `fmt::Error`) -/
+def showsFor (t : Target) (it : Item) : Bool :=
+  (!(itemNeeds it).1 || (targetShows t).1) && (!(itemNeeds it).2.1 || (targetShows t).2.1) &&
+    (!(itemNeeds it).2.2 || (targetShows t).2.2)
+
 /-- a century without a two-digit year (and without the full year) is not a year -/
 def groupUsable (y q r : Bool) : Bool := !(q && !y && !r)
 
-/-- the item lists of the family, per target type -/
+/-- the item lists of the family, per target type: every item is one the reader can invert and the
+target type can print (`showsFor`: no time item for a `NaiveDate`, no offset item for a naive value);
+a date-time needs a full date and a full time (and a
+zone-aware one an offset or a timestamp next to them), or the instant as a timestamp alone
+(`stampOnly`; a timestamp next to an incomplete set of date/time fields is outside the family) -/
 def Unambiguous (is : List Item) (t : Target) : Prop :=
-  (∀ it ∈ is, invertible it = true) ∧ separated is = true ∧
+  (∀ it ∈ is, invertible it = true ∧ showsFor t it = true) ∧ separated is = true ∧
   groupUsable (carries is).year (carries is).yearDiv (carries is).yearMod = true ∧
   groupUsable (carries is).isoYear (carries is).isoYearDiv (carries is).isoYearMod = true ∧
   let c := carries is
   match t with
   | .date => fullDate c = true ∧ c.timestamp = false
   | .time => fullTime c = true
-  | .naive => (fullDate c = true ∧ fullTime c = true) ∨ c.timestamp = true
+  | .naive => (fullDate c = true ∧ fullTime c = true) ∨ stampOnly c = true
   | .zoned => ((fullDate c = true ∧ fullTime c = true) ∧ (c.offset = true ∨ c.timestamp = true)) ∨
-      (c.timestamp = true)
+      stampOnly c = true
 
 instance (is : List Item) (t : Target) : Decidable (Unambiguous is t) := by
   unfold Unambiguous; cases t <;> exact inferInstance
@@ -295,7 +335,13 @@ def truncate_to_precision (is : List Item) (v : Value) : Option Value :=
          | .ok (some z') => some (.zoned z')
          | _ => none)
       | .panic => none
-    else some (.zoned ⟨⟨z.utc.date, ⟨z.utc.time.secs, 0⟩⟩, off'⟩)
+    else
+      -- timestamp only: the instant at whole seconds, at the printed offset (UTC without an offset
+      -- item) — provided the wall clock at that offset is still in the supported range
+      let z' : Zoned := ⟨⟨z.utc.date, ⟨z.utc.time.secs, 0⟩⟩, off'⟩
+      match z'.naive_local with
+      | .ok _ => some (.zoned z')
+      | .panic => none
 
 /-! ### the fields of a value, item by item
 
@@ -419,11 +465,21 @@ def spaceSafe : List Item → Bool
 /-- ASCII white space (what `%t`, `%n` and blanks in a format string are) -/
 def asciiWs (b : Nat) : Bool := (decide (9 ≤ b) && decide (b ≤ 13)) || b == 32
 
-/-- the invertible items for which `item_inverts` is proved: all of them except white-space items
-that contain non-ASCII white space and the `Z`-printing offset items (no specifier produces those) -/
+/-- the bytes are a run of white-space characters (UTF-8 encodings of the 25 `char::is_whitespace`
+characters, ASCII or not): what a white-space item of a format string holds -/
+def wsRunAux : Nat → List Nat → Bool
+  | _, [] => true
+  | 0, _ :: _ => false
+  | fuel + 1, b :: rest =>
+    let n := Scan.wsLen (b :: rest)
+    n != 0 && wsRunAux fuel ((b :: rest).drop n)
+def wsRun (s : List Nat) : Bool := wsRunAux s.length s
+
+/-- the invertible items for which `item_inverts` is proved: all of them except the `Z`-printing offset
+items (no specifier produces those); a white-space item holds a run of white-space characters -/
 def provedItem : Item → Bool
   | .literal _ => true
-  | .space s => s.all asciiWs
+  | .space s => wsRun s
   | .numeric _ _ => true
   | .fixed .shortMonthName | .fixed .longMonthName | .fixed .shortWeekdayName | .fixed .longWeekdayName
   | .fixed .lowerAmPm | .fixed .upperAmPm | .fixed .nanosecond | .fixed .nanosecond3 | .fixed .nanosecond6
